@@ -47,6 +47,7 @@ From Atlas Require Import Base.Bytes Diff.Schema Diff.DiffModel Diff.DiffSqlite
   Sqlite.PlanModel Sqlite.PlanProofs Sqlite.EngineModel Sqlite.InspectModel Sqlite.ConvergeDefs Sqlite.ConvergeStep
   Sqlite.Converge Sqlite.ConvergeSupported Sqlite.EngineRowsProofs Sqlite.ConvergeRows Sqlite.ConvergeParts Sqlite.ConvergeSyntactic
   Sqlite.ConvergeFeature Sqlite.ConvergeExported Hcl.SpecModel Hcl.SpecProofs.
+From Atlas Require Hcl.SpecDiffAutoProofs.
 Import ListNotations.
 
 (** ** the theorems *)
@@ -196,6 +197,23 @@ Theorem C01_converges_from_exported_hcl :
       diff_and_plan nm (inspect d2) B = Some p /\ exec_all d2 (plan_stmts p) = Ok d' /\ synced nm d' B.
 Proof. exact converges_from_exported_hcl. Qed.
 Print Assumptions C01_converges_from_exported_hcl.
+
+(** D2 = D1 (the relation `same` of the stage, oracle class exported-self-diff): a database's own export plans
+    NOTHING -- also when the database has inline UNIQUE constraints, which [supported] excludes on the current
+    side.  [diffable_auto] is C03's condition on the inspected tables (C03_hcl_except: unique names, typed columns,
+    defaults the document preserves, made-up names that do not collide). *)
+Theorem C01_exported_self_apply_is_noop :
+  forall (nm : str) (d1 : db),
+    schema_wf (inspect d1) -> Forall Hcl.SpecDiffAutoProofs.diffable_auto (inspect d1) ->
+    exists B, hcl_roundtrip (inspect d1) = ROk B /\
+      diff_and_plan nm (inspect d1) B = Some (mkPlan [] true true) /\
+      exec_all d1 (plan_stmts (mkPlan [] true true)) = Ok d1 /\ synced nm d1 B.
+Proof. exact exported_self_apply_noop. Qed.
+Print Assumptions C01_exported_self_apply_is_noop.
+Example C01_ex_self_apply :
+  schema_wf (inspect ex_u_db) /\ Forall Hcl.SpecDiffAutoProofs.diffable_auto (inspect ex_u_db) /\
+  map (fun c => length (ct_uniques c)) (db_tables ex_u_db) = [1%nat].
+Proof. split; [exact (proj1 ex_self_nonvacuous)|]. split; [exact (proj2 ex_self_nonvacuous)|reflexivity]. Qed.
 
 (** ** witnesses *)
 Definition nm : str := [109]%N.
